@@ -266,7 +266,7 @@ pub fn cases(tier: &str) -> Vec<Case> {
     let t = tier == "thorough";
     let mut v = Vec::new();
     let (ma, mb, m1, m2) = if t { (5, 3, 5, 4) } else { (3, 2, 2, 1) };
-    let thrs: &[usize] = if t { &[2, 3, 4] } else { &[2, 3] };
+    let thrs: &[usize] = if t { &[1, 2, 3, 4] } else { &[1, 2, 3] };
     let tcs: &[usize] = if t { &[0, 2, 3, 100] } else { &[0, 2, 100] };
     let mls: &[usize] = if t { &[2, 3, 4] } else { &[2, 4] };
     for backend in ["object-store", "in-memory"] {
@@ -389,7 +389,7 @@ pub fn run(tier: &str) -> i32 {
     rep.set("distinct_nontrivial", nontrivial.load(Ordering::SeqCst));
     rep.set("merges", total_merges.load(Ordering::SeqCst));
     rep.set("max_cycles_to_fixed_point", maxc.load(Ordering::SeqCst));
-    rep.set("rule", "every initial catalog (0..n chunks per level L0 hour A / L0 hour B / L1 / L2, plus variants with 0..2 L0 chunks in the hour after B and an L0 chunk straddling that hour boundary, and variants in which the oldest / newest L1 chunk or an L0 chunk is large enough to reach the level target on its own) x l0_merge_threshold {2,3} (thorough: also 4) x level target size {1 byte, ~2 chunks, ~100 chunks} (thorough: also ~3 chunks) x max_levels {2,4} (thorough: also 3) x both back ends; each run through up to 8 real compaction cycles; states = catalog states between cycles; non-trivial = at least one merge happened");
+    rep.set("rule", "every initial catalog (0..n chunks per level L0 hour A / L0 hour B / L1 / L2, plus variants with 0..2 L0 chunks in the hour after B and an L0 chunk straddling that hour boundary, and variants in which the oldest / newest L1 chunk or an L0 chunk is large enough to reach the level target on its own) x l0_merge_threshold {1,2,3} (thorough: also 4) x level target size {1 byte, ~2 chunks, ~100 chunks} (thorough: also ~3 chunks) x max_levels {2,4} (thorough: also 3) x both back ends; each run through up to 8 real compaction cycles; states = catalog states between cycles; non-trivial = at least one merge happened");
     rep.push_sample(json!(cs.get(cs.len() / 2)));
     if nontrivial.load(Ordering::SeqCst) == 0 {
         rep.machinery("vacuity guard: no case performed a merge");
